@@ -172,6 +172,11 @@ class Prov:
             return {(("ctor", n["res"].get("path") or n.get("qname"), fn.def_path, n["id"], ctx), ())}
         if k in ("Tup", "Array"):
             return {(("tuple", "tuple", fn.def_path, n["id"], ctx), ())}
+        if k == "Match" and n.get("source", "").startswith("TryDesugar"):
+            # `x?` evaluates to the success payload of x
+            sc = hir.peel(n["scrut"])
+            if hir.is_call(sc) and hir.call_args(sc):
+                return O(hir.call_args(sc)[0])
         if k in ("BlockExpr", "If", "Match"):
             out = set()
             for v in value_exprs(n):
@@ -321,32 +326,38 @@ class Prov:
         return res
 
     # ---- interprocedural parameter resolution -----------------------------------------------
-    def resolve_params(self, origins, seen=None, depth=0):
+    def resolve_params(self, origins, stack=(), depth=0):
         """Replace ('param', fn, i) roots by the origins of the argument at every call site of fn
-        (only when fn has resolved callers inside the crate)."""
-        seen = set() if seen is None else seen
+        (only when fn has resolved callers inside the crate).  Cycles are cut; shared sub-results are
+        recomputed rather than dropped."""
         out = set()
         for root, proj in origins:
-            if root[0] != "param" or depth > 6:
+            if root[0] != "param" or depth > 8:
                 out.add((root, proj))
                 continue
             key = (root[1], root[2])
-            if key in seen:
+            if key in stack:
                 continue
-            seen.add(key)
             g = self.prog.by_def.get(root[1])
             sites = self.prog.sites_calling(g) if g is not None else []
             sites = [(f, n) for f, n in sites if hir.is_call(n)]
             if not sites:
                 out.add((root, proj))
                 continue
-            for f, n in sites:
-                args = hir.call_args(n)
-                if root[2] < len(args):
-                    sub = self._proj(self.origins(f, args[root[2]]), proj)
-                    out |= self.resolve_params(sub, seen, depth + 1)
-                else:
-                    out.add((root, proj))
+            if not hasattr(self, "_rp_memo"):
+                self._rp_memo = {}
+            mkey = key if not stack else (key, frozenset(stack))
+            base = self._rp_memo.get(mkey)
+            if base is None:
+                base = set()
+                for f, n in sites:
+                    args = hir.call_args(n)
+                    if root[2] < len(args):
+                        base |= self.resolve_params(self.origins(f, args[root[2]]), stack + (key,), depth + 1)
+                    else:
+                        base.add((root, ()))
+                self._rp_memo[mkey] = base
+            out |= self._proj(base, proj)
         return out
 
 
